@@ -371,6 +371,15 @@ def f36_empty_sparse_container_loses_bins_name():
     return all(out)
 
 
+def f37_fillnumpy_negative_weights():
+    import numpy as np
+    h = hg.Bin(2, 0, 2, lambda x: x)
+    h.fill.numpy(np.array([0.5, 1.5]), np.array([1.0, -3.0]))
+    g = hg.Bin(2, 0, 2, lambda x: x)
+    g.fill.numpy(np.array([0.5, 1.5]), -1.0)
+    return h.entries != sum(v.entries for v in h.values) or g.entries < 0.0
+
+
 if __name__ == "__main__":
     present = 0
     for name, fn in sorted((k, v) for k, v in globals().items() if k.startswith("f") and k[1:3].isdigit()):
